@@ -169,7 +169,7 @@ def wrap_ra(x):
 
 
 def clamp_dec(x):
-    return max(-89.9999, min(89.9999, x))
+    return max(-90.0, min(90.0, x))
 
 
 def log_uniform(rng, lo, hi):
@@ -223,6 +223,8 @@ def gen_polar(rng, nmax):
         if rng.random() < 0.15:
             d = -d                                # a few points in the other cap
         pts.append((rng.uniform(0, 360), clamp_dec(d)))
+    if rng.random() < 0.35:                       # the pole itself is a sky position
+        pts[rng.randrange(len(pts))] = (rng.choice([0.0, rng.uniform(0, 360)]), sign * 90.0)
     return pts, L, 'polar'
 
 
@@ -251,6 +253,18 @@ def gen_allsky(rng, nmax):
     return pts, L, 'allsky'
 
 
+def gen_capspan(rng, nmax):
+    """A band reaching from mid latitudes into one polar cap (the padded declination range is cut at the pole)."""
+    L = log_uniform(rng, 0.3, 8.0)
+    sign = rng.choice([1, -1])
+    lo = rng.uniform(-40, 70)
+    hi = rng.uniform(max(lo + 2, 90 - 12 * L), 90.0)
+    pts = []
+    for _ in range(rng.randint(4, nmax)):
+        pts.append((rng.uniform(0, 360), clamp_dec(sign * rng.uniform(lo, hi))))
+    return pts, L, 'capspan'
+
+
 def gen_small(rng, nmax):
     L = log_uniform(rng, 1e-3, 10.0)
     n = rng.randint(2, 4)
@@ -267,9 +281,9 @@ def gen_edges(rng, nmax):
     sg = sg_module()
     L = log_uniform(rng, 1e-2, 2.0)
     cs = L * rng.choice([4.0, 4.0, 5.0, 8.0])
-    dec0 = rng.uniform(-70, 50)
-    ra0 = rng.choice([rng.uniform(10, 300), 360.0 - 2 * cs, 0.5 * cs])
     w, h = rng.uniform(2, 5) * cs, rng.uniform(2, 4) * cs
+    dec0 = rng.uniform(-85, max(-84.0, 85 - h))
+    ra0 = rng.choice([rng.uniform(10, 300), 360.0 - 2 * cs, 0.5 * cs])
     c0 = max(math.cos(math.radians(dec0 + h)), 0.05)
     frame = [(wrap_ra(ra0), dec0), (wrap_ra(ra0 + w / c0), dec0), (wrap_ra(ra0), clamp_dec(dec0 + h)),
              (wrap_ra(ra0 + w / c0), clamp_dec(dec0 + h))]
@@ -287,12 +301,11 @@ def gen_edges(rng, nmax):
         x = rng.choice(list(rab[1:-1])) if (len(rab) > 2 and rng.random() < 0.6) else rng.uniform(rab[0], rab[-1])
         x = x - ch.raOffset + rng.choice([-1, 1]) * rng.choice([1e-9, 0.1, 0.45]) * L
         y = b + rng.choice([-1, 1]) * rng.choice([1e-9, 0.05, 0.3]) * L
-        sep = rng.choice([0.5, 0.8, 1.4]) * L
-        ang = rng.uniform(0, 2 * math.pi)
+        sep = rng.choice([0.5, 0.8, 0.97, 1.05, 1.4]) * L
+        ang = rng.choice([0.0, math.pi, 0.5 * math.pi, rng.uniform(0, 2 * math.pi), rng.uniform(0, 2 * math.pi)])
         c = max(math.cos(math.radians(y)), 0.05)
         p1 = (wrap_ra(x), clamp_dec(y))
         p2 = (wrap_ra(x + sep * math.cos(ang) / c), clamp_dec(y + sep * math.sin(ang)))
-        lo_ra, hi_ra = ra0, ra0 + w / c0
         ok = all(dec0 <= p[1] <= dec0 + h for p in (p1, p2))
         if ok:
             pts += [p1, p2]
@@ -302,7 +315,28 @@ def gen_edges(rng, nmax):
 
 
 GENERATORS = [(gen_chain, 5), (gen_seam, 3), (gen_polar, 3), (gen_lattice, 3), (gen_allsky, 2), (gen_small, 1),
-              (gen_edges, 3)]
+              (gen_edges, 4), (gen_capspan, 2)]
+
+
+MAX_CELLS = 6000.0
+
+
+def admissible_chunksize(pts, L, cs):
+    """The real chunk layout allocates (Dec range / chunksize) x (RA range / chunksize) cells: keep that bounded
+    (cost only; any chunksize >= 4 L is admissible).  Returns an explicit chunksize when the requested one would
+    allocate too many cells."""
+    eff = max(cs, 4.0 * L) if cs is not None else max(4.0 * L, 0.1)
+    decs = [p[1] for p in pts]
+    ras = sorted(p[0] for p in pts)
+    gaps = [b - a for a, b in zip(ras, ras[1:])] + [ras[0] + 360.0 - ras[-1]]
+    ra_r = 360.0 - max(gaps)
+    dec_r = max(decs) - min(decs)
+    cmin = max(math.cos(math.radians(max(abs(max(decs)), abs(min(decs))))), 1e-3)
+    cells = (dec_r / eff + 3.0) * (360.0 / eff + 3.0 if ra_r / cmin > 300 else ra_r / eff + 3.0)
+    if cells <= MAX_CELLS:
+        return cs
+    area = max(dec_r, eff) * max(min(ra_r, 360.0), eff)
+    return max(eff, math.sqrt(area / (MAX_CELLS / 4.0)))
 
 
 def make_sets(rng, count, nmax, nbig=0, bigmax=0):
@@ -318,6 +352,7 @@ def make_sets(rng, count, nmax, nbig=0, bigmax=0):
         cs = res[3] if len(res) > 3 else rng.choice([None, None, 4.0 * L, 4.0 * L, 4.5 * L, 6.0 * L, 10.0 * L, 2.0 * L, 25.0 * L])
         if len(pts) < 2:
             continue
+        cs = admissible_chunksize(pts, L, cs)
         if rng.random() < 0.5:
             rng.shuffle(pts)
         out.append({'ra': [p[0] for p in pts], 'dec': [p[1] for p in pts], 'L': L, 'cs': cs, 'tag': tag})
@@ -325,7 +360,7 @@ def make_sets(rng, count, nmax, nbig=0, bigmax=0):
             q = list(pts)
             rng.shuffle(q)
             out.append({'ra': [p[0] for p in q], 'dec': [p[1] for p in q], 'L': L,
-                        'cs': rng.choice([None, 4.0 * L, 7.0 * L]), 'tag': tag + '-perm'})
+                        'cs': admissible_chunksize(q, L, rng.choice([None, 4.0 * L, 7.0 * L])), 'tag': tag + '-perm'})
     return out
 
 
@@ -342,9 +377,28 @@ def run_real(s):
         return {'exc': '%s: %s' % (type(ex).__name__, str(ex)[:160])}
 
 
-def classify_sky(obs):
-    if 'exc' in obs and 'cosDecMin' in obs['exc']:
-        return 'D-C04-1'
+def uncovered_points(s):
+    """Points the real chunk assignment puts in no chunk (read-only look at a real chunks object)."""
+    sg = sg_module()
+    ra = np.array(s['ra'], dtype='d')
+    dec = np.array(s['dec'], dtype='d')
+    cs = max(s['cs'], 4.0 * s['L']) if s['cs'] is not None else max(4.0 * s['L'], 0.1)
+    try:
+        ch = sg.chunks(ra, dec, cs)
+        ch.assign(ra, dec, s['L'])
+    except Exception:
+        return None
+    seen = {i for row in ch.chunkList for cell in row for i in cell}
+    return [i for i in range(len(ra)) if i not in seen]
+
+
+def classify_sky(s, obs):
+    """Name the deviation that explains a rejected spheregroup call exactly, if any."""
+    if 'exc' in obs:
+        return 'D-C04-1' if 'cosDecMin' in obs['exc'] else None
+    unc = uncovered_points(s)
+    if unc and all(s['dec'][i] == 90.0 for i in unc):
+        return 'D-C05-1'          # spec: FoF!Dev_PointInNoChunk, the point being the north pole
     return None
 
 
@@ -360,7 +414,7 @@ def run(ctx):
                 '(graph, cover) with at least one link and two chunks, or recorded point set with at least one linked pair; '
                 'recorded calls = real spheregroup on seeded adversarial point sets judged by Trace_FoF')
     ctx.assumptions = [
-        'inputs: RA in [0,360), |Dec| <= 89.9999 deg, n >= 2, linking length 3e-4 .. 30 deg; chunksize None or a multiple of the '
+        'inputs: RA in [0,360), |Dec| <= 90 deg (the poles included), n >= 2, linking length 3e-4 .. 30 deg; chunksize None or a multiple of the '
         'linking length (values below 4 L are raised to 4 L by spheregroup itself)',
         'link relation of a recorded set = independent oracle (numpy longdouble, chord and atan2 formulas); pairs within '
         '1e-9 relative / 1e-12 deg of the linking length are borderline and may count either way (sets with more than %d '
@@ -412,7 +466,7 @@ def run(ctx):
         rawsame = same(raw, eraw) and raw.get('ng') == eraw['ng']
         if not rawsame:
             nraw_diff += 1
-        if ncase % 1500 == 1:
+        if ncase in (1, 700, 4000):
             ctx.sample({'graph': {'n': n, 'adj': adj}, 'cover': cover, 'expected': efin, 'observed': fin,
                         'friendsoffriends_return_equal_to_model': rawsame})
         if not same(fin, efin):
@@ -437,9 +491,9 @@ def run(ctx):
     # ---- code -> spec: real spheregroup on adversarial sets, judged by TLC -------------------
     rng = random.Random(ctx.seed)
     if ctx.quick:
-        sets = make_sets(rng, 170, 48)
+        sets = make_sets(rng, 400, 48)
     else:
-        sets = make_sets(rng, 1500, 70, nbig=40, bigmax=260)
+        sets = make_sets(rng, 2500, 70, nbig=40, bigmax=260)
     recs, kept = [], []
     skipped = 0
     for s in sets:
@@ -452,7 +506,7 @@ def run(ctx):
         kept.append((s, obs))
         if adj:
             ctx.nontriv(('sky', len(kept)))
-    bad = core.validate_records(ctx, 'Trace_FoF', recs, label='Trace_FoF(spheregroup)', chunk=400)
+    bad = core.validate_records(ctx, 'Trace_FoF', recs, label='Trace_FoF(spheregroup)', chunk=800)
     ctx.evaluated(len(recs), 'recorded-spheregroup')
     ctx.validated(len(recs))
     tags = {}
@@ -470,7 +524,8 @@ def run(ctx):
                 % (len(s['ra']), s['tag'], s['L'], s['cs'], bad[k],
                    obs['exc'] if 'exc' in obs else 'ingroup=%s' % obs['ig'][:40]))
         ctx.violation({'what': what, 'type': 'sky', 'ra': s['ra'], 'dec': s['dec'], 'L': s['L'], 'cs': s['cs'],
-                       'tag': s['tag'], 'why': bad[k], 'observed': obs}, finding=classify_sky(obs))
+                       'tag': s['tag'], 'why': bad[k], 'observed': obs, 'points_in_no_chunk': uncovered_points(s)},
+                      finding=classify_sky(s, obs))
     ctx.exhaustive = not ctx.quick
 
 
